@@ -144,7 +144,14 @@ def cfg_items(rng, cfgdb, pattern):
             size = int(e["t"][1:4])
         else:
             code = rng.randrange(1, 6)
-            kid = (code << 28) | (rng.randrange(1, 0xFF) << 16) | rng.randrange(0xF000, 0xFFFF)
+            if rng.random() < 0.5:
+                # near miss of a documented key: same group and item, other size code
+                d = int.from_bytes(bytes(rng.choice(cfgdb)["key"]), "little")
+                kid = (d & 0x0FFFFFFF) | (code << 28)
+                if any(bytes(x["key"]) == kid.to_bytes(4, "little") for x in cfgdb):
+                    kid = (code << 28) | (rng.randrange(1, 0xFF) << 16) | rng.randrange(0xF000, 0xFFFF)
+            else:
+                kid = (code << 28) | (rng.randrange(1, 0xFF) << 16) | rng.randrange(0xF000, 0xFFFF)
             key = kid.to_bytes(4, "little")
             size = {1: 1, 2: 1, 3: 2, 4: 4, 5: 8}[code]
         if key in used:
